@@ -119,6 +119,28 @@ def do(lst, op, validated=None):
     return None
 
 
+def resolve(op, before, live):
+    """Replace the payload tokens: "SELF" = the list itself (the model gets
+    a copy of the contents), "FLOATS" = the items the key selects, as floats
+    (equal to what they replace, but other objects of another type)."""
+    if op[0] in ("setitem", "extend", "iadd") and isinstance(op[-1], str) \
+            and op[-1] in ("SELF", "FLOATS"):
+        if op[-1] == "SELF":
+            pl = live if live is not None else list(before)
+        else:
+            try:
+                sel = list(before)[key_of(op[1])]
+            except Exception:
+                sel = []
+            pl = [float(x) for x in sel] if isinstance(sel, list) else []
+        return op[:-1] + (pl,)
+    return op
+
+
+def typed(xs):
+    return [(type(x).__name__, x) for x in xs]
+
+
 def payload(op):
     """(kind, payload) of values that get inserted by op."""
     name = op[0]
@@ -218,14 +240,14 @@ def step(ctx, mode, tl, rec, ref, op, tag):
     (a list, updated in place). Returns False when a violation was recorded."""
     before = list(ref)
     ctx.tr()
-    acc, ok = model(mode, before, op)
+    acc, ok = model(mode, before, resolve(op, before, None))
     rec.events.clear()
     for log in rec.extra.values():
         log.clear()
     notifiers, val = tl.notifiers, tl.item_validator
     n_notifiers = len(notifiers)
     try:
-        ret = do(tl, op)
+        ret = do(tl, resolve(op, before, tl))
         exc = None
     except Exception as e:
         ret, exc = None, type(e)
@@ -271,7 +293,9 @@ def step(ctx, mode, tl, rec, ref, op, tag):
     if ret != eret:
         bad("return", "return value %r, list returns %r" % (ret, eret))
     ref[:] = after
-    if after != before:
+    # "changes the contents": another value or a value of another type at
+    # some position (1 replaced by 1.0 is a change although 1 == 1.0)
+    if typed(after) != typed(before):
         ctx.nontriv((mode, before, op))
         if len(evs) != 1:
             bad("event-count", "contents changed but %d events emitted"
@@ -382,6 +406,16 @@ def ops_for(mode, n, tier, light=False):
                         ops.append(("setitem", key, pl))
     ops.append(("setitem", ["s", None, None, 0], [100]))
     ops.append(("delitem", ["s", None, None, 0]))
+    # the list itself as the right-hand side; equal-but-other replacements
+    ops += [("extend", "SELF"), ("iadd", "SELF")]
+    small = [None] + list(range(-(n + 1), n + 2))
+    for st in small:
+        for sp in small:
+            for step_ in (None, -1, 2):
+                key = ["s", st, sp, step_]
+                ops.append(("setitem", key, "SELF"))
+                if mode in ("id", "reject"):
+                    ops.append(("setitem", key, "FLOATS"))
     return ops
 
 
